@@ -330,24 +330,28 @@ macro_rules! rat_ops {
     ($tr:ident, $m:ident, $f:ident) => {
         impl $tr<BigRational> for BigRational {
             type Output = BigRational;
+            #[inline]
             fn $m(self, o: BigRational) -> BigRational {
                 self.$f(o)
             }
         }
         impl<'a> $tr<&'a BigRational> for BigRational {
             type Output = BigRational;
+            #[inline]
             fn $m(self, o: &'a BigRational) -> BigRational {
                 self.$f(*o)
             }
         }
         impl<'a> $tr<BigRational> for &'a BigRational {
             type Output = BigRational;
+            #[inline]
             fn $m(self, o: BigRational) -> BigRational {
                 (*self).$f(o)
             }
         }
         impl<'a, 'b> $tr<&'b BigRational> for &'a BigRational {
             type Output = BigRational;
+            #[inline]
             fn $m(self, o: &'b BigRational) -> BigRational {
                 (*self).$f(*o)
             }
